@@ -174,7 +174,15 @@ class StructureMetaType(MetaType):
                 # If a field already has an offset, it's leading
                 offset = field.offset
 
-            if align and offset is not None:
+            field_type = field.type
+
+            if isinstance(field_type, EnumMetaType):
+                field_type = field_type.type
+
+            # A bit field that continues the current storage unit lives inside that (already aligned) unit
+            continues_unit = field.bits and field.offset is None and bits_remaining > 0 and field_type == bits_type
+
+            if align and offset is not None and not continues_unit:
                 # Round to next alignment
                 offset += -offset & (field.alignment - 1)
 
@@ -182,10 +190,6 @@ class StructureMetaType(MetaType):
             alignment = max(alignment, field.alignment)
 
             if field.bits:
-                field_type = field.type
-
-                if isinstance(field_type, EnumMetaType):
-                    field_type = field_type.type
 
                 # Bit fields have special logic
                 if (
@@ -258,8 +262,9 @@ class StructureMetaType(MetaType):
                 offset = struct_start + field.offset
                 stream.seek(offset)
 
-            if cls.__align__ and field.offset is None:
+            if cls.__align__ and field.offset is None and not _continues_unit(field, bit_buffer):
                 # Previous field was dynamically sized and we need to align
+                # (a bit field that continues the current storage unit is already positioned)
                 offset += -offset & (field.alignment - 1)
                 stream.seek(offset)
 
@@ -627,6 +632,14 @@ class UnionProxy:
     def __setattr__(self, attr: str, value: Any) -> None:
         setattr(self.__target__, attr, value)
         self.__union__._rebuild(self.__attr__)
+
+
+def _continues_unit(field: Field, bit_buffer: BitBuffer) -> bool:
+    """Whether ``field`` is a bit field that takes its bits from the storage unit ``bit_buffer`` already holds."""
+    if not field.bits or not bit_buffer._remaining:
+        return False
+    field_type = field.type.type if isinstance(field.type, EnumMetaType) else field.type
+    return bit_buffer._type == field_type
 
 
 def attrsetter(path: str) -> Callable[[Any], Any]:
